@@ -75,6 +75,8 @@ def gen_history(rng):
         "nbins": [3, 3, 8], "nbins_d": {"MS": [3, 3, 8], "WD": 4, "BH": 5}, "nbins_d2": {"MS": 12, "WD": 3, "NS": 1, "BH": 4},
         "tout": np.array([3000.0, 12000.0]), "tout1": [9000.0], "tout_u": np.array([12000.0, 3000.0, 7000.0]),      # ages in the caller's own order
         "fbh_u": np.array([0.001, 0.002, 0.0015]),
+        # BH mass functions starting below / above the lightest BH of the IFMR, as list and as ndarray
+        "bh_breaks": [5.0, 15.0, 40.0], "bh_breaks_a": np.array([5.0, 20.0, 50.0]), "bh_breaks_hi": [6.0, 30.0], "bh_slopes": [-1.0, -2.3], "bh_nbins": [4, 4],
         "fbh": np.array([0.06, 0.08]), "fbh_ok": np.array([0.001, 0.002]), "breaks": [0.1, 0.5, 1.0, 100.0],
     }
     calls = []
@@ -88,10 +90,10 @@ def gen_history(rng):
         feh = rng.choice(few)
         k = rng.choice(["IFMR", "IFMR", "EvolvedMF", "EvolvedMFWithBH", "from_IMF", "from_IMF", "from_BHMF"])
         if k == "from_BHMF":
-            args = dict(m_breaks=rng.choice([[5.0, 15.0, 40.0], [6.0, 30.0]]), a_slopes=None, nbins=rng.choice([[4, 4], [6]]), FeH=feh,
+            which = rng.choice(["bh_breaks", "bh_breaks", "bh_breaks_a", "bh_breaks_hi"])
+            args = dict(m_breaks={"$h": which}, a_slopes=({"$h": "bh_slopes"} if which != "bh_breaks_hi" else [-1.0]),
+                        nbins=({"$h": "bh_nbins"} if which != "bh_breaks_hi" else [6]), FeH=feh,
                         N0=rng.choice([1000, 2500.0]), natal_kicks=rng.choice([False, False, True]))
-            args["nbins"] = args["nbins"][:len(args["m_breaks"]) - 1] if len(args["nbins"]) >= len(args["m_breaks"]) - 1 else [3] * (len(args["m_breaks"]) - 1)
-            args["a_slopes"] = [-1.0, -2.3][:len(args["m_breaks"]) - 1]
         elif k == "IFMR":
             m = rng.choice(["banerjee20", "banerjee20", "cosmic-rapid", "linear", "linear", "powerlaw"])
             kw = analytic()[1] if m == "linear" else {"$h": rng.choice(["d_pl", "d_pl2"])} if m == "powerlaw" else \
